@@ -311,7 +311,7 @@ for name in RULES:
             q = build_rule(name, gens)
             it = iter(q.evaluate())
             st, _ = guarded(lambda: [next(it) for _ in range(k)])
-            guarded(it.close)
+            guarded(lambda: getattr(it, "close", lambda: None)())
             del it
             st, got = guarded(lambda: [rr(r) for r in q.evaluate()])
             rep.case(("rule", name, gens, "abandon", k))
@@ -322,6 +322,54 @@ for name in RULES:
                 rep.fail(f"rule-abandon-then-again::{'generators' if gens else 'lists'}::{'order' if sorted(got) == sorted(ref) else 'content'}",
                          f"rule tree '{name}' abandoned after {k} of {len(ref)} results, then evaluated again: {got}, alone {ref}", dict(inp, schedule=f"abandon-{k}"))
                 break
+# every iterator created FIRST, consumed one after the other afterwards (no two are ever advanced alternately): calling evaluate()
+# does nothing yet, whatever an evaluation resets it resets when it starts to be consumed
+for name in RULES:
+    q = build_rule(name, False)
+    st, ref = guarded(lambda: [rr(r) for r in build_rule(name, False).evaluate()])
+    if st == "exc":
+        continue
+    pending = [q.evaluate() for _ in range(3)]
+    st, res = guarded(lambda: [[rr(r) for r in it_] for it_ in pending])
+    rep.case(("rule", name, "created-first"))
+    inp = {"rule": name, "schedule": "three iterators created first, then consumed in order"}
+    if st == "exc":
+        rep.fail("raised::rule-created-first", f"{name}: {type(res).__name__}: {res}", inp)
+    else:
+        for i, got in enumerate(res):
+            if got != ref:
+                rep.fail(f"rule-created-first::{'order' if sorted(got) == sorted(ref) else 'content'}",
+                         f"rule tree '{name}': three iterators created first, consumed in order: iterator {i} gives {len(got)} inferred instances, a fresh query {len(ref)}", inp)
+                break
+# one predicate call shared by two queries in different roles (a condition below and_ in one, an operand of == in the other)
+from krrood.entity_query_language.predicate import symbolic_function as _sf
+from krrood.entity_query_language.entity import and_ as _and
+
+
+@_sf
+def remainder(v):
+    return v % 2
+
+
+def shared_predicate_queries():
+    items = [Item(i) for i in range(6)]
+    x = let(Item, items)
+    call = remainder(x.a)
+    return an(entity(x, _and(call, x.a >= 0))), an(entity(x, call == 0))
+
+
+st, refs = guarded(lambda: [[r.a for r in q_.evaluate()] for q_ in shared_predicate_queries()])
+if st == "ok":
+    qa, qb = shared_predicate_queries()
+    st, o = guarded(lambda: step_alternately([iter(qa.evaluate()), iter(qb.evaluate())], [lambda r: r.a, lambda r: r.a]))
+    rep.case(("shared-predicate", "alternating"))
+    if st == "exc":
+        rep.fail("raised::shared-predicate-call", f"{type(o).__name__}: {o}", {"schedule": "alternating"})
+    else:
+        for i, got in enumerate(o):
+            if got != refs[i]:
+                rep.fail("shared-predicate-call::two-roles", f"a predicate call shared by a condition and by a comparison, iterators stepped alternately: query {i} gives {got}, alone {refs[i]}",
+                         {"schedule": "alternating", "query": i})
 # a rule tree that grows between evaluations (the ripple-down workflow: evaluate, look, add an exception, evaluate again)
 for name in RULES:
     if name == "base":
@@ -436,7 +484,7 @@ for with_alt in (False, True):
         q = build_furniture(with_alt)
         it = q.evaluate()
         st, taken = guarded(lambda: [fr_(next(it)) for _ in range(k)])
-        guarded(it.close)
+        guarded(lambda: getattr(it, "close", lambda: None)())
         del it
         st2, again = guarded(lambda: [fr_(r) for r in q.evaluate()])
         rep.case(("rule", name, "abandon", k))
